@@ -4,6 +4,6 @@ CONSTANTS
   RT = 2
   Offsets = {0, 4}
   MaxIdx = 11
-INVARIANTS TypeOK NeverForgetsNorInvents GetInPlace NoZeroBelowOffset HeadNotFullAfterSet MonitorEquiv RangeFormAgrees
+INVARIANTS TypeOK NeverForgetsNorInvents GetInPlace NoZeroBelowOffset HeadNotFullAfterSet MonitorEquiv RangeFormAgrees RunFullAgrees
 PROPERTIES FunctionalFormsAgree OffsetMonotone CompactKeepsGets PassedOnlySet
 CHECK_DEADLOCK FALSE
